@@ -639,11 +639,14 @@ func (w *world) settle(cond func() bool) {
 	case "pipe", "echo":
 		w.quiesce()
 	case "rt", "pubx":
-		// every read deadline expires: wait until all sessions are over
+		// every read deadline expires: wait until all sessions are over (tcp: and the client has seen the close)
 		w.waitFor(func() bool {
 			loops := loopsOf()
 			for _, cs := range w.sess {
 				if !w.ended(cs, loops) {
+					return false
+				}
+				if _, _, _, eof, _ := cs.snapshot(); w.tcp && !eof && !cs.peerClosedBy {
 					return false
 				}
 			}
